@@ -149,7 +149,8 @@ class State:
         added = False
         for var_name in var_names if isinstance(var_names, set) else {var_names}:
             parts = var_name.split(".")
-            if len(parts) != 2 and len(parts) != 3:
+            if len(parts) != 2 and len(parts) != 3 and not (len(parts) == 4 and parts[2] == "old"):
+                # (DOMAIN.name.old.attr is an attribute of the previous value)
                 continue
             state_var_name = f"{parts[0]}.{parts[1]}"
             if state_var_name not in cls.notify:
@@ -164,7 +165,7 @@ class State:
 
         for var_name in var_names if isinstance(var_names, set) else {var_names}:
             parts = var_name.split(".")
-            if len(parts) != 2 and len(parts) != 3:
+            if len(parts) != 2 and len(parts) != 3 and not (len(parts) == 4 and parts[2] == "old"):
                 continue
             state_var_name = f"{parts[0]}.{parts[1]}"
             if state_var_name not in cls.notify or queue not in cls.notify[state_var_name]:
